@@ -81,6 +81,14 @@ Proof.
   now exists a, b, c, d.
 Qed.
 
+Lemma loop_cons fuel count st b l :
+  params_loop g2u (S fuel) count st (b :: l) =
+  ('(h, r) <- take_e 5 (b :: l) ;;
+   '(content, r') <- take_e (nth 4 h 0) r ;;
+   x <- parse_param g2u (be_dec (firstn 4 h)) (nth 4 h 0) content ;;
+   params_loop g2u fuel ((count + 255) mod 256) (upd st (be_dec (firstn 4 h)) (nth 4 h 0) content x) r').
+Proof. reflexivity. Qed.
+
 (* one wire item at the front of the input is one round of the loop *)
 Lemma run_item id plen content rest count st : id < 4294967296 -> len content = plen ->
   run count st (be_enc 4 id ++ [plen] ++ content ++ rest) =
@@ -89,12 +97,12 @@ Proof.
   intros Hid Hl. unfold run.
   pose proof (be_dec_enc 4 id) as D. change (256 ^ N.of_nat 4) with 4294967296 in D. specialize (D Hid).
   destruct (be_enc_4_shape id) as (a & b & c & d & E). rewrite E in *.
-  cbn [app length params_loop].
+  cbn [app length]. rewrite loop_cons.
   change (a :: b :: c :: d :: plen :: content ++ rest) with ([a; b; c; d; plen] ++ content ++ rest).
   rewrite take_e_app_n by reflexivity. cbn [bind firstn nth]. rewrite D.
   rewrite take_e_app_n by exact Hl. cbn [bind].
   destruct (parse_param g2u id plen content) as [x|e|]; cbn [bind]; try reflexivity.
-  unfold upd. apply loop_fuel; rewrite ?app_length; cbn [length]; lia.
+  apply loop_fuel; rewrite ?app_length; cbn [length]; lia.
 Qed.
 
 Lemma run_nil st : run 0 st [] = Ok st.
@@ -116,27 +124,25 @@ Proof.
     exists plen, x.
     destruct k, x as [n|s|l]; try discriminate H; unfold parse_param; cbn [enc_field enc_value is_set].
     + (* K32 *) apply andb_true_iff in H. destruct H as [H1 H2]. apply N.eqb_eq in H1. subst plen.
-      repeat split; try reflexivity; try discriminate.
-      * apply be_enc_len.
-      * intros ->. cbn [N.eqb Pos.eqb]. rewrite be_dec_enc by (change (256 ^ N.of_nat 4) with 4294967296; lia). reflexivity.
+      repeat split; try reflexivity; try discriminate; try apply be_enc_len.
+      intros PK. rewrite PK. cbn [N.eqb Pos.eqb]. rewrite be_dec_enc by (change (256 ^ N.of_nat 4) with 4294967296; lia). reflexivity.
     + (* K16 *) apply andb_true_iff in H. destruct H as [H1 H2]. apply N.eqb_eq in H1. subst plen.
-      repeat split; try reflexivity; try discriminate.
-      * apply be_enc_len.
-      * intros ->. cbn [N.eqb Pos.eqb]. rewrite be_dec_enc by (change (256 ^ N.of_nat 2) with 65536; lia). reflexivity.
+      repeat split; try reflexivity; try discriminate; try apply be_enc_len.
+      intros PK. rewrite PK. cbn [N.eqb Pos.eqb]. rewrite be_dec_enc by (change (256 ^ N.of_nat 2) with 65536; lia). reflexivity.
     + (* K8 *) apply andb_true_iff in H. destruct H as [H1 H2]. apply N.eqb_eq in H1. subst plen.
       repeat split; try reflexivity; try discriminate.
-      intros ->. reflexivity.
+      intros PK. rewrite PK. reflexivity.
     + (* KStr *) repeat (apply andb_true_iff in H; destruct H as [H ?]).
       match goal with E : (plen =? _) = true |- _ => apply N.eqb_eq in E end.
       replace (plen =? 0) with false by lia.
       repeat split; try reflexivity; try discriminate; try lia.
-      intros ->. now rewrite Hc.
+      intros PK. rewrite PK. now rewrite Hc.
     + (* KB4 *) apply andb_true_iff in H. destruct H as [H1 H2]. apply N.eqb_eq in H1. subst plen.
       repeat split; try reflexivity; try discriminate; try lia.
-      intros ->. reflexivity.
+      intros PK. rewrite PK. reflexivity.
     + (* KB8 *) apply andb_true_iff in H. destruct H as [H1 H2]. apply N.eqb_eq in H1. subst plen.
       repeat split; try reflexivity; try discriminate; try lia.
-      intros ->. reflexivity.
+      intros PK. rewrite PK. reflexivity.
 Qed.
 
 Lemma count_set_cons f fs : count_set (f :: fs) = (if is_set f then 1 else 0) + count_set fs.
